@@ -74,6 +74,17 @@ type enforceOut struct {
 	Panic      string   `json:"panic,omitempty"`
 }
 
+func newCtrl(store *fakeStore, mode ledgercontroller.SchemaEnforcementMode) *ledgercontroller.DefaultController {
+	return ledgercontroller.NewDefaultController(
+		ledger.Ledger{Name: "l"},
+		store,
+		ledgercontroller.NewDefaultNumscriptParser(),
+		ledgercontroller.NewDefaultNumscriptParser(),
+		ledgercontroller.NewInterpreterNumscriptParser(nil),
+		ledgercontroller.WithSchemaEnforcementMode(mode),
+	)
+}
+
 func renderScript(ps []postingT) string {
 	var sb strings.Builder
 	for i, p := range ps {
